@@ -80,6 +80,74 @@ static ZERO_ANCESTOR_WEIGHT_SEEN: AtomicU64 = AtomicU64::new(0);
 /// Value used before the first measurement (always_success in this tree).
 const UNIT_CYCLES_DEFAULT: u64 = 539;
 
+/// C13, transient templates: a thread of the harness polls `get_block_template` all the time
+/// (fast while the engine has flagged a tip change in progress) and keeps every template with a
+/// work id it has not seen. The templates are judged at the next quiescent point: one whose parent
+/// is the node's tip goes through the same verification as a template taken at quiescence (the
+/// validity of a block on its parent does not depend on when the template was handed out), one
+/// on a superseded parent is judged against the model's proposal window of that parent.
+struct Sampler {
+    stop: std::sync::Arc<std::sync::atomic::AtomicBool>,
+    hot: std::sync::Arc<std::sync::atomic::AtomicBool>,
+    buf: std::sync::Arc<std::sync::Mutex<Vec<(bool, ckb_jsonrpc_types::BlockTemplate)>>>,
+    polls: std::sync::Arc<AtomicU64>,
+    th: Option<std::thread::JoinHandle<()>>,
+}
+
+impl Sampler {
+    fn start(ctl: ckb_tx_pool::TxPoolController) -> Sampler {
+        use std::sync::atomic::AtomicBool;
+        let stop = std::sync::Arc::new(AtomicBool::new(false));
+        let hot = std::sync::Arc::new(AtomicBool::new(false));
+        let buf: std::sync::Arc<std::sync::Mutex<Vec<(bool, ckb_jsonrpc_types::BlockTemplate)>>> = Default::default();
+        let polls = std::sync::Arc::new(AtomicU64::new(0));
+        let (stop2, hot2, buf2, polls2) = (stop.clone(), hot.clone(), buf.clone(), polls.clone());
+        let th = std::thread::Builder::new()
+            .name("verif-template-sampler".into())
+            .spawn(move || {
+                let mut last: Option<u64> = None;
+                while !stop2.load(Ordering::SeqCst) {
+                    let is_hot = hot2.load(Ordering::SeqCst);
+                    if let Ok(Ok(t)) = ctl.get_block_template(None, None, None) {
+                        polls2.fetch_add(1, Ordering::Relaxed);
+                        let w: u64 = t.work_id.into();
+                        if last != Some(w) {
+                            last = Some(w);
+                            let mut b = buf2.lock().unwrap();
+                            if b.len() >= 48 {
+                                // keep the ones taken inside a tip change; drop the oldest other one
+                                if let Some(i) = b.iter().position(|x| !x.0) {
+                                    b.remove(i);
+                                } else {
+                                    b.remove(0);
+                                }
+                            }
+                            b.push((is_hot, t));
+                        }
+                    }
+                    std::thread::sleep(Duration::from_micros(if is_hot { 60 } else { 1_500 }));
+                }
+            })
+            .expect("spawn sampler");
+        Sampler { stop, hot, buf, polls, th: Some(th) }
+    }
+    fn set_hot(&self, on: bool) {
+        self.hot.store(on, Ordering::SeqCst);
+    }
+    fn take(&self) -> Vec<(bool, ckb_jsonrpc_types::BlockTemplate)> {
+        std::mem::take(&mut *self.buf.lock().unwrap())
+    }
+}
+
+impl Drop for Sampler {
+    fn drop(&mut self) {
+        self.stop.store(true, Ordering::SeqCst);
+        if let Some(t) = self.th.take() {
+            let _ = t.join();
+        }
+    }
+}
+
 struct PoolCfg {
     rbf: bool,
     max_pool_bytes: usize,
@@ -136,6 +204,17 @@ struct Sess {
     /// set by `quiesce` when it gives up although the pool has already processed the
     /// notification that names the chain tip (its snapshot is behind for good)
     stuck: std::cell::RefCell<Option<String>>,
+    /// templates caught in passing (see `Sampler`)
+    sampler: Sampler,
+    /// label of the operation in progress (for the witnesses of sampled templates)
+    cur_op: &'static str,
+}
+
+fn set_default_delay_plan(seed: u64) {
+    let mut points = std::collections::BTreeMap::new();
+    points.insert("pool::before_reorg_lock", (250u64, 2_500u64));
+    points.insert("assembler::after_prepare_uncles", (300u64, 2_000u64));
+    hooks::set_plan(hooks::DelayPlan { points, seed });
 }
 
 fn id_hex(id: &ProposalShortId) -> String {
@@ -269,6 +348,8 @@ pub fn run(args: &Args) -> i32 {
     r.c13.require("obs.late_fill.templates_after_uncle_or_proposal_update", 3);
     r.c13.require("obs.cpfp.templates_at_cycle_limit", 3);
     r.c13.require("obs.uncle_race.next_block_embeds_the_candidate", 3);
+    r.c13.require("obs.window_race.submission_answered_while_pool_behind_chain", 2);
+    r.c13.require("sampled.judged_on_the_new_tip_taken_inside_the_tip_change", 10);
     if sessions >= 7 {
         r.c13.require("obs.tiny_reward.templates_with_empty_cellbase", 3);
     }
@@ -394,6 +475,7 @@ fn run_session(rng: &mut Rng, si: u64, n_ops: u64, r: &mut Reports) {
     };
     let n = Node::boot(&gi, &ncfg);
     let genesis = tg.rc.genesis;
+    let sampler = Sampler::start(n.shared.tx_pool_controller().clone());
     let mut s = Sess {
         gi,
         tg,
@@ -422,6 +504,8 @@ fn run_session(rng: &mut Rng, si: u64, n_ops: u64, r: &mut Reports) {
         understated: HashMap::new(),
         understated_tip: genesis,
         stuck: std::cell::RefCell::new(None),
+        sampler,
+        cur_op: "",
     };
     // warm-up: a few blocks so that rewards / windows exist
     for _ in 0..(3 + s.rng.below(3)) {
@@ -443,6 +527,8 @@ fn run_session(rng: &mut Rng, si: u64, n_ops: u64, r: &mut Reports) {
             20 => Some(8),
             26 => Some(9),
             54 => Some(9),
+            14 => Some(10),
+            41 => Some(10),
             48 => Some(8),
             37 => Some(6),
             44 => Some(1),
@@ -464,6 +550,7 @@ fn run_session(rng: &mut Rng, si: u64, n_ops: u64, r: &mut Reports) {
                 7 => s.op_cellref_evict(r),
                 8 => s.op_block_burst(r),
                 9 => s.op_uncle_race(r),
+                10 => s.op_window_race(r),
                 _ => s.op_pool_pressure(r),
             };
             if !ok {
@@ -982,6 +1069,7 @@ impl Sess {
 
     /// Deliver built blocks to the node under test, in order.
     fn deliver(&mut self, blocks: &[H], r: &mut Reports) -> bool {
+        self.sampler.set_hot(true);
         for x in blocks {
             let b = std::sync::Arc::clone(&self.tg.rc.get(x).block);
             if std::env::var("VERIF_DEBUG").is_ok() {
@@ -1071,7 +1159,52 @@ impl Sess {
         self.check_pool(&post, r);
         self.check_against_chain(pre, &post, old_tip, r);
         self.last_tip = self.n_tip();
+        self.judge_sampled(&post, r);
         true
+    }
+
+    /// C13: judge the templates the sampler thread has collected since the last call. `d` is a
+    /// dump taken at quiescence on the node's current tip.
+    fn judge_sampled(&mut self, d: &VerifPoolDump, r: &mut Reports) {
+        self.sampler.set_hot(false);
+        let taken = self.sampler.take();
+        let tip = self.n_tip();
+        if h(&d.snapshot_tip) != tip {
+            return;
+        }
+        for (hot, tpl) in taken {
+            let work_id: u64 = tpl.work_id.into();
+            let parent: packed::Byte32 = tpl.parent_hash.clone().into();
+            let parent = h(&parent);
+            r.c13.count("sampled.templates_collected");
+            if hot {
+                r.c13.count("sampled.collected_while_a_tip_change_was_in_progress");
+            }
+            if parent == tip {
+                if self.last_work_id == Some(work_id) {
+                    continue;
+                }
+                let label = if hot { "while a tip change was in progress" } else { "between two operations" };
+                let label = format!("{label}, during {}", if self.cur_op.is_empty() { "a random operation" } else { self.cur_op });
+                if hot {
+                    r.c13.count("sampled.judged_on_the_new_tip_taken_inside_the_tip_change");
+                }
+                let _ = self.judge_template(r, tpl, d, tip, Some(&label));
+            } else if self.tg.rc.contains(&parent) {
+                // superseded parent: the node can no longer verify it; what the model alone can
+                // say: every committed transaction is in the proposal set of that parent
+                r.c13.count("sampled.templates_on_superseded_tip");
+                r.c13.eval();
+                let (set, _) = self.tg.rc.window_sets(&parent);
+                for t in tpl.transactions.iter() {
+                    let tx: packed::Transaction = t.data.clone().into();
+                    let id = tx.into_view().proposal_short_id();
+                    if !set.contains(&id) {
+                        r.c13.violation("template.commits_unproposed_tx", format!("template (work id {work_id}) on superseded tip {} commits {} whose id is not in the model's proposal set of that block", hx(&parent), id_hex(&id)), self.witness(json!({"taken": "by the sampler thread"})));
+                    }
+                }
+            }
+        }
     }
 
     // ----------------------------------------------------------------------------------
@@ -1698,6 +1831,7 @@ impl Sess {
     fn check_template(&mut self, r: &mut Reports, mine_pm: u64, only_if_new: bool) -> Option<(usize, usize, usize, u64)> {
         let none = Some((0, 0, 0, 0));
         let Some(pre) = self.quiesce() else { return None };
+        self.judge_sampled(&pre, r);
         let tip = self.n_tip();
         let tpl = match self.n.shared.tx_pool_controller().get_block_template(None, None, None) {
             Ok(Ok(t)) => t,
@@ -1731,6 +1865,47 @@ impl Sess {
             return none;
         }
         self.last_work_id = Some(work_id);
+        let Some((verdict, block, rejected)) = self.judge_template(r, tpl, &pre, tip, None) else { return none };
+        if rejected {
+            return verdict;
+        }
+        let wit = self.witness(json!({"template_parent": vbase::hex(&tip), "mined": true}));
+        // mine a fraction: the node itself and a second node must accept it
+        if mine_pm > 0 && self.rng.chance(mine_pm, 1000) {
+            let res = self.n.chain().blocking_process_block(std::sync::Arc::new(block.clone()));
+            r.c13.eval();
+            r.c13.count("templates_mined");
+            if !matches!(res, Ok(true)) {
+                r.c13.violation("template.mined_block_refused_by_node", format!("{:?}", res.map_err(|e| e.to_string())), wit.clone());
+                return None;
+            }
+            let known = &self.known;
+            let pool_known: HashMap<ProposalShortId, TransactionView> = pre.entries.iter().map(|e| (e.id.clone(), e.tx.clone())).collect();
+            let lookup = |id: &ProposalShortId| known.get(id).cloned().or_else(|| pool_known.get(id).cloned());
+            match self.tg.adopt(&block, &lookup) {
+                Ok(_) => {}
+                Err(e) => {
+                    r.c13.violation("template.mined_block_refused_by_second_node", e, wit);
+                    return None;
+                }
+            }
+            self.now = self.now.max(block.timestamp());
+            vnode::node::set_time(self.now);
+            self.ops.push(format!("mined template -> tip #{}", block.number()));
+            r.c11.count("ops.block");
+            return if self.after_tip_change(&pre, tip, r) { verdict } else { None };
+        }
+        verdict
+    }
+
+    /// Seal a template whose parent is the node's current tip `tip` and run it through the node's
+    /// own verification plus the structural checks. `pre` is a dump of the pool taken at
+    /// quiescence on this tip. `sampled`: Some(label) for a template the sampler thread caught in
+    /// passing (between two quiescent points), None for one taken at quiescence.
+    /// Returns None when the template turned out to be stale; otherwise (verdict tuple, sealed
+    /// block, refused by verification).
+    #[allow(clippy::type_complexity)]
+    fn judge_template(&mut self, r: &mut Reports, tpl: ckb_jsonrpc_types::BlockTemplate, pre: &VerifPoolDump, tip: H, sampled: Option<&str>) -> Option<(Option<(usize, usize, usize, u64)>, BlockView, bool)> {
         let cycles_limit: u64 = tpl.cycles_limit.into();
         let bytes_limit: u64 = tpl.bytes_limit.into();
         let n_txs = tpl.transactions.len();
@@ -1740,6 +1915,12 @@ impl Sess {
         let block = builder::seal(&self.gi.consensus, block);
         r.c13.eval();
         r.c13.count("templates_verified");
+        if sampled.is_some() {
+            r.c13.count("sampled.templates_judged");
+            if n_txs > 0 {
+                r.c13.count("sampled.templates_judged_with_txs");
+            }
+        }
         if self.flavor == Flavor::TinyReward {
             let finalises = block.number() > self.gi.consensus.finalization_delay_length();
             let empty = block.transactions().first().map(|cb| cb.outputs().is_empty()).unwrap_or(false);
@@ -1757,7 +1938,7 @@ impl Sess {
             r.c13.count("templates_with_proposals");
         }
         r.c13.distinct(vbase::fnv1a(format!("{:?}{}{}{}{}", tip, n_txs, n_props, n_uncles, block.epoch().index()).as_bytes()));
-        let wit = self.witness(json!({"template_parent": vbase::hex(&tip), "txs": n_txs, "proposals": n_props, "uncles": n_uncles,
+        let wit = self.witness(json!({"template_parent": vbase::hex(&tip), "txs": n_txs, "proposals": n_props, "uncles": n_uncles, "taken": sampled.map(|l| format!("by the sampler thread, {l}")).unwrap_or_else(|| "at quiescence".into()),
             "template_txs": block.transactions().iter().skip(1).map(|t| format!("{}{}", hx(&h(&t.hash())), if pre.entries.iter().any(|e| e.tx.hash() == t.hash()) { "" } else { " (not pooled now)" })).collect::<Vec<_>>()}));
         let tpl_cycles;
         match full_verify_noncommit(&self.n.shared, &block) {
@@ -1769,7 +1950,7 @@ impl Sess {
             }
             Err(e) if e.starts_with("stale") => {
                 r.c13.count("templates_stale");
-                return none;
+                return None;
             }
             Err(e) => {
                 let kind: String = e.split(':').take(2).collect::<Vec<_>>().join(":").chars().take(90).collect();
@@ -1829,7 +2010,7 @@ impl Sess {
                     format!("template.exceeds_max_block_{}@pool_ancestor_aggregates_understated", if over_bytes { "bytes" } else { "cycles" })
                 };
                 r.c13.violation(&signature, format!("template on tip {} (#{}) with {} txs, {} proposals, {} uncles (size {} / limit {}, cycles limit {}) fails the node's own verification: {}; {}", hx(&tip), self.tg.rc.get(&tip).number, n_txs, n_props, n_uncles, size, bytes_limit, cycles_limit, e, understated_list.join("; ")), wit.clone());
-                return Some((n_txs, n_uncles, n_props, 0));
+                return Some((Some((n_txs, n_uncles, n_props, 0)), block, true));
             }
         }
         let verdict = Some((n_txs, n_uncles, n_props, tpl_cycles));
@@ -1858,33 +2039,8 @@ impl Sess {
         if r.c13.samples.len() < 5 && n_txs > 0 {
             r.c13.sample(json!({"tip": format!("{}#{}", hx(&tip), self.tg.rc.get(&tip).number), "txs": n_txs, "proposals": n_props, "uncles": n_uncles, "size": size, "bytes_limit": bytes_limit, "epoch": format!("{}", block.epoch())}));
         }
-        self.ops.push(format!("template on #{} txs={} props={} uncles={}", self.tg.rc.get(&tip).number, n_txs, n_props, n_uncles));
-        // mine a fraction: the node itself and a second node must accept it
-        if mine_pm > 0 && self.rng.chance(mine_pm, 1000) {
-            let res = self.n.chain().blocking_process_block(std::sync::Arc::new(block.clone()));
-            r.c13.eval();
-            r.c13.count("templates_mined");
-            if !matches!(res, Ok(true)) {
-                r.c13.violation("template.mined_block_refused_by_node", format!("{:?}", res.map_err(|e| e.to_string())), wit.clone());
-                return None;
-            }
-            let known = &self.known;
-            let pool_known: HashMap<ProposalShortId, TransactionView> = pre.entries.iter().map(|e| (e.id.clone(), e.tx.clone())).collect();
-            let lookup = |id: &ProposalShortId| known.get(id).cloned().or_else(|| pool_known.get(id).cloned());
-            match self.tg.adopt(&block, &lookup) {
-                Ok(_) => {}
-                Err(e) => {
-                    r.c13.violation("template.mined_block_refused_by_second_node", e, wit);
-                    return None;
-                }
-            }
-            self.now = self.now.max(block.timestamp());
-            vnode::node::set_time(self.now);
-            self.ops.push(format!("mined template -> tip #{}", block.number()));
-            r.c11.count("ops.block");
-            return if self.after_tip_change(&pre, tip, r) { verdict } else { None };
-        }
-        verdict
+        self.ops.push(format!("template{} on #{} txs={} props={} uncles={}", sampled.map(|l| format!(" (sampled {l})")).unwrap_or_default(), self.tg.rc.get(&tip).number, n_txs, n_props, n_uncles));
+        Some((verdict, block, false))
     }
 }
 
@@ -2246,6 +2402,143 @@ impl Sess {
             r.c13.count("obs.uncle_race.next_block_embeds_the_candidate");
         }
         if !self.finish_block_op(&pre, tip, &[a2], 0, r) {
+            return false;
+        }
+        self.settle_template();
+        self.check_template(r, 0, false).is_some()
+    }
+
+
+    /// C13 (template updates inside the pool's tip-change window): T1 is pooled, proposed by the
+    /// chain in block p and never committed (the builder skips every commit), so the block at
+    /// height p + w_far is its last chance. That block arrives without T1 while the pool service
+    /// is held (injected delay at `pool::before_reorg_lock`) between the arrival of the
+    /// notification and the re-organisation of its content; inside that window T2 -- proposed by
+    /// the chain at p + 1, unknown to the pool so far -- is submitted, which makes the block
+    /// assembler refresh its transactions. Every template the sampler thread catches in the
+    /// meantime is judged at the next quiescent point (T1 must not be committed on the new tip).
+    fn op_window_race(&mut self, r: &mut Reports) -> bool {
+        let saved = (self.tg.cfg.commit_skip_pm, self.tg.cfg.max_new_txs, self.tg.cfg.uncle_pm);
+        self.cur_op = "the tip-change window scenario";
+        let ok = self.op_window_race_inner(r);
+        self.cur_op = "";
+        self.tg.cfg.commit_skip_pm = saved.0;
+        self.tg.cfg.max_new_txs = saved.1;
+        self.tg.cfg.uncle_pm = saved.2;
+        set_default_delay_plan(self.salt);
+        ok
+    }
+
+    fn op_window_race_inner(&mut self, r: &mut Reports) -> bool {
+        let Some(pre) = self.quiesce() else { return false };
+        let (w_close, w_far) = self.tg.rc.window;
+        if w_far <= w_close || self.flavor == Flavor::SmallCycles {
+            return true;
+        }
+        let tip_n = self.tg.rc.get(&self.n_tip()).number;
+        let cells = self.chain_cells(&pre, tip_n);
+        if cells.len() < 2 {
+            return true;
+        }
+        r.c13.count("ops.scenario_window_race");
+        let (x, y) = (cells[0].clone(), cells[1].clone());
+        self.tg.keep.insert(op_key(&x.0));
+        self.tg.keep.insert(op_key(&y.0));
+        let rate = self.min_fee_rate + 500 + self.xrng.below(2_000);
+        let Some(t1) = self.simple_tx(&[x], rate, 0, &[], 2) else { return true };
+        let Some(t2) = self.simple_tx(&[y], rate + 300, 0, &[], 5) else { return true };
+        self.known.insert(t2.proposal_short_id(), t2.clone());
+        match self.submit_tx(r, &t1, &pre, " (window race, T1)") {
+            Some(true) => {}
+            Some(false) => return true,
+            None => return false,
+        }
+        // from here on the builder commits nothing and proposes only what it is told to
+        self.tg.cfg.commit_skip_pm = 1000;
+        self.tg.cfg.max_new_txs = 0;
+        self.tg.cfg.uncle_pm = 0;
+        if !self.op_block_ex(r, 0, std::slice::from_ref(&t1), false) {
+            return false;
+        }
+        let p = self.tg.rc.get(&self.n_tip()).number;
+        if !self.op_block_ex(r, 0, std::slice::from_ref(&t2), false) {
+            return false;
+        }
+        while self.tg.rc.get(&self.n_tip()).number < p + w_far - 1 {
+            if !self.op_block_ex(r, 0, &[], false) {
+                return false;
+            }
+        }
+        if self.tg.rc.get(&self.n_tip()).number != p + w_far - 1 || !self.in_proposed_set(&[t1.clone(), t2.clone()]) || self.committed_on_main(&t1) || self.committed_on_main(&t2) {
+            r.c13.count("obs.window_race.setup_not_reached");
+            return true;
+        }
+        let Some(pre2) = self.quiesce() else { return false };
+        let t1_proposed = pre2.entries.iter().any(|e| e.id == t1.proposal_short_id() && e.status == "proposed");
+        if !t1_proposed {
+            r.c13.count("obs.window_race.setup_not_reached");
+            return true;
+        }
+        let (blocks, old_tip, depth) = self.build_blocks(&pre2, 0, &[], false);
+        if blocks.iter().any(|b| self.tg.rc.get(b).block.transactions().len() > 1) {
+            r.c13.count("obs.window_race.setup_not_reached");
+            if !self.deliver(&blocks, r) {
+                return false;
+            }
+            return self.finish_block_op(&pre2, old_tip, &blocks, depth, r);
+        }
+        // the pool service sleeps between receiving the notification and re-organising the pool
+        {
+            let mut points = std::collections::BTreeMap::new();
+            points.insert("pool::before_reorg_lock", (2000u64, 25_000u64));
+            hooks::set_plan(hooks::DelayPlan { points, seed: self.salt });
+        }
+        if !self.deliver(&blocks, r) {
+            return false;
+        }
+        std::thread::sleep(Duration::from_micros(800));
+        let res = self.n.shared.tx_pool_controller().submit_local_tx(t2.clone());
+        let behind = self.n.shared.tx_pool_controller().get_tx_pool_info().map(|i| i.tip_hash != self.n.tip_hash()).unwrap_or(false);
+        // leave the block assembler and the sampler some time inside the window
+        std::thread::sleep(Duration::from_millis(4));
+        set_default_delay_plan(self.salt);
+        let res = match res {
+            Ok(x) => x.map(|_| ()).map_err(|e| e.to_string()),
+            Err(e) => {
+                r.c11.inconclusive(&format!("harness: submit_local_tx channel error {e}"));
+                return false;
+            }
+        };
+        if behind {
+            r.c13.count("obs.window_race.submission_answered_while_pool_behind_chain");
+        }
+        let new_tip = *blocks.last().unwrap();
+        self.now = self.now.max(self.tg.rc.get(&new_tip).block.timestamp());
+        vnode::node::set_time(self.now);
+        self.ops.push(format!("block depth=0 -> tip {}#{} (closes the window of T1 {}) ; T2 {} submitted inside the pool's tip-change window -> {}", hx(&new_tip), self.tg.rc.get(&new_tip).number, hx(&h(&t1.hash())), hx(&h(&t2.hash())), match &res { Ok(_) => "ok".to_string(), Err(e) => e.chars().take(70).collect() }));
+        r.c11.count("ops.block");
+        r.c11.count(if res.is_ok() { "ops.submit_ok" } else { "ops.submit_rejected" });
+        if self.n_tip() != self.tg.tip() {
+            r.c12.violation("node_tip_differs_from_builder_tip", format!("node {} builder {}", hx(&self.n_tip()), hx(&self.tg.tip())), self.witness(json!({})));
+            return false;
+        }
+        let Some(post) = self.quiesce() else {
+            r.c12.inconclusive("watchdog: pool did not catch up with the chain tip in 30 s");
+            return false;
+        };
+        {
+            let id = t2.proposal_short_id();
+            let in_pool = post.entries.iter().any(|e| e.id == id);
+            r.c11.eval();
+            if res.is_ok() != in_pool {
+                r.c11.violation(
+                    if res.is_ok() { "submit.accepted_tx_not_in_pool" } else { "submit.rejected_tx_in_pool" },
+                    format!("submit_local_tx returned {:?} but pool membership is {}", res, in_pool),
+                    self.witness(json!({"tx": vbase::hex(t2.hash().as_slice()), "submitted_inside_tip_change_window": true})),
+                );
+            }
+        }
+        if !self.after_tip_change_with(&pre2, post, old_tip, r) {
             return false;
         }
         self.settle_template();
